@@ -128,13 +128,9 @@ func UnmarshalCBOR[T any](data []byte) (T, error) {
 	if err != nil {
 		return t, errs.Wrap(err).WithMessage("deserialisation error")
 	}
-	// A top-level CBOR null or undefined decodes into a nil pointer without an error from the
-	// decoder; callers dereference the result, so it is refused here.
-	if v := reflect.ValueOf(t); v.Kind() == reflect.Pointer && v.IsNil() {
-		return t, ErrNull.WithMessage("deserialisation error")
-	}
 	return t, nil
 }
 
-// ErrNull is returned when a top-level CBOR null or undefined is decoded into a pointer type.
+// ErrNull reports that a top-level CBOR null or undefined was decoded: UnmarshalCBOR turns it into
+// a nil pointer without an error, and callers that decode into a pointer type must check for it.
 var ErrNull = errs.New("decoded value is null")
